@@ -288,7 +288,7 @@ class ManagerMachine(Machine):
         elif theme == "offeq":
             offEq = True
             variants = ["V0", rng.choice(["V6", "V1"])]
-            weights.update(colldir=6, config=1, detonation=0, arm=1, hydro=1, thermo=0,
+            weights.update(colldir=6, config=1, detonation=2, arm=1, hydro=1, thermo=0,
                            new_model=2, lte=0)
             good = [t for t in good if t >= 7.0]
         elif theme == "lowT":
@@ -368,8 +368,12 @@ class ManagerMachine(Machine):
         c.configEOM.maxIterations = cfg["maxIterations"]
         c.configEOM.pressRelErrTol = cfg["pressRelErrTol"]
         c.configEOM.conserveEnergyMomentum = cfg["conserve"]
-        # a list, like the default and like Config.loadConfigFromFile leaves it
-        c.configEOM.wallThicknessBounds = [float(b) for b in cfg["thicknessBounds"]]
+        # Touch the bounds only when this variant changes them, and then element by
+        # element, as Config.loadConfigFromFile does: a user who never sets them keeps
+        # the default list object (whatever that object may be shared with)
+        for i, bound in enumerate(cfg["thicknessBounds"]):
+            if c.configEOM.wallThicknessBounds[i] != float(bound):
+                c.configEOM.wallThicknessBounds[i] = float(bound)
         c.configBoltzmannSolver.collisionMultiplier = cfg["collisionMultiplier"]
 
     def _freshManager(self, setupCfg: dict, variant: str, collKind: str | None) -> tuple:
@@ -437,6 +441,9 @@ class ManagerMachine(Machine):
         op = "solve" if last else rng.choice(ops)
         if not self.valid and op in ("lte", "solve", "detonation", "hydro", "thermo"):
             op = "setup"
+        if self.valid and cfg["offEq"] and self.prevOp == "colldir" and rng.random() < 0.35:
+            # every kind of solver call against the directory as it is now
+            return {"op": "detonation", "settings": rng.choice(cfg["settings"]), "offEq": True}
         # perturb-then-ask-again: after a step that could leave something behind,
         # most of the time repeat the last question put to this manager
         if self.valid and self.lastQuestion is not None and self.prevOp in (
